@@ -18,7 +18,7 @@ IMPL = os.path.join(tlc.SPEC, "impl")
 NOPATH = ["-", "-"]
 COND_TABLE = {"C1": "objpid", "C2": "cid", "C3": "doc", "C4": "refpid"}
 SHARED = {"obj", "pidref", "cidref", "doc", "objdel", "pidrefdel", "cidrefdel", "docdel", "docdel2", "docdel3"}
-MODELLED_OPS = {"store", "storenp", "tag", "delete", "dii", "putmeta", "getmeta", "delmeta"}
+MODELLED_OPS = {"store", "storenp", "tag", "delete", "dii", "putmeta", "getmeta", "delmeta", "retrieve"}
 
 
 def semantic(raw):
@@ -57,7 +57,7 @@ def semantic(raw):
             out.append({"t": t, "op": "stat", "a": a, "b": NOPATH, "out": o, "val": []})
         elif op == "open:r":
             mode[key] = "r"
-            if a[0] in ("pidref", "cidref", "doc"):
+            if a[0] in ("pidref", "cidref", "doc", "obj"):
                 out.append({"t": t, "op": "read", "a": a, "b": NOPATH, "out": okfnf,
                             "val": e.get("val", [])})
         elif op == "open:rw":
@@ -135,7 +135,7 @@ def _one(args):
             runs.append({"events": semantic(rec["raw"]),
                          "results": {t: rec["results"][t]["cls"] for t in tids},
                          "data": {t: (rec["results"][t]["data"]
-                                      if sc.threads[t]["op"] in ("store", "storenp", "getmeta")
+                                      if sc.threads[t]["op"] in ("store", "storenp", "getmeta", "retrieve")
                                       and rec["results"][t]["cls"] == "ok" else "-") for t in tids},
                          "schedule": rec["schedule"]})
         # planted corruptions of the first recorded run: the model must REJECT each of them
@@ -198,7 +198,9 @@ def _one(args):
                                      "schedule": runs[k - 1]["schedule"]})
         res["trace_wall"] = round(wall, 1)
         if do_mc:
-            out, wall = _tlc("MCImpl.tla", "MCImpl.cfg.tmpl", consts, sf, 2)
+            has_reader = any(c["op"] == "retrieve" for c in sc.threads.values())
+            out, wall = _tlc("MCImpl.tla", "MCImplReaders.cfg.tmpl" if has_reader else "MCImpl.cfg.tmpl",
+                             consts, sf, 2)
             m = re.search(r"(\d+) states generated, (\d+) distinct states found", out)
             res["mc"] = {"generated": int(m.group(1)) if m else 0, "distinct": int(m.group(2)) if m else 0,
                          "violated": re.findall(r"Invariant (\S+) is violated", out)
@@ -206,7 +208,7 @@ def _one(args):
                          + (["deadlock"] if "Deadlock reached" in out else []),
                          "ok": "No error has been found" in out, "wall": round(wall, 1)}
         if do_crash and len(sc.threads) == 2:
-            out, wall = _tlc("MCImpl.tla", "MCImplCrash.cfg.tmpl", consts, sf, 2)
+            out, wall = _tlc("MCImplCrash.tla", "MCImplCrash.cfg.tmpl", consts, sf, 2)
             m = re.search(r"(\d+) states generated, (\d+) distinct states found", out)
             res["crash_mc"] = {"distinct": int(m.group(2)) if m else 0,
                                "violated": re.findall(r"Invariant (\S+) is violated", out),
